@@ -225,14 +225,20 @@ def _module_structure(design, m, out):
           out.append("module %s: identifier %r used (line %d) before its declaration (line %d)"
                      % (mod, name, line, d[1]))
   # member / select legality needs types: try to elaborate the module
+  import re as _re
+  def add_elab(msg):
+    m = _re.search(r"identifier '(\w+)' is not declared", msg)
+    if m and any(("identifier %r" % m.group(1)) in o or ("name %r used" % m.group(1)) in o for o in out):
+      return
+    if msg not in out:
+      out.append(msg)
   try:
     design.modinfo(mod)
     an = analyze_module(design, mod)
-    out.extend(an.elab_problems)
+    for pmsg in an.elab_problems:
+      add_elab(pmsg)
   except (SVElabError, SVSyntaxError) as e:
-    msg = "module %s: %s" % (mod, e)
-    if not any("is not declared" in o and "is not declared" in msg for o in out):
-      out.append(msg)
+    add_elab("module %s: %s" % (mod, e))
 
 
 # ------------------------------------------------------------------------------------------
